@@ -8,11 +8,13 @@ from c04 import rand_text, ALPHA22
 
 def run_cli(args):
     argv, data = args
-    try:
-        p = subprocess.run([HYEONG_BIN, "--color", "never"] + argv, input=data, stdout=subprocess.PIPE, stderr=subprocess.PIPE, timeout=4)
-        return p.stdout, p.stderr, p.returncode
-    except subprocess.TimeoutExpired as e:
-        return e.stdout or b"", e.stderr or b"", "timeout"
+    p = run_capped([HYEONG_BIN, "--color", "never"] + argv, input=data, timeout=4)
+    return p.stdout, p.stderr, p.returncode
+
+
+def ext_is_hyeong(name):
+    """std's Path::extension() == "hyeong": the part after the last dot of a file name that has a dot after its first character"""
+    return "." in name[1:] and name.rsplit(".", 1)[1] == "hyeong"
 
 
 def rand_bytes(rng, valid_bias=0.5):
@@ -52,7 +54,13 @@ def main(tier, seed):
             elif d < 0.13: content = content.replace(b"\n", b"\r\n") + b"\r\n"
             elif d < 0.15: content = content + b"\x00"
             q = rng.random()
-            if q < 0.82: name = "f%d.hyeong" % k
+            if q < 0.76: name = "f%d.hyeong" % k
+            elif q < 0.82:
+                # names that are short, have no dot, or have multi-byte characters at every distance from the end
+                # (seeded change C13-extension-test-by-byte-slicing)
+                name = "%d" % k + rng.choice(["안녕.hyung", "형.hyeon", "없는파일.hyung", "가.hyeong", "é.txt", "메모é.text", "프로그램.hyeong.txt", "a.h", "x", "안녕",
+                                             "\U0001F600.hyeong", "가" + "a" * rng.randint(0, 9), "\U0001F600" + "b" * rng.randint(0, 9) + rng.choice(["", ".hy", ".hyeong"]),
+                                             "hyeong", ".hyeong.", "a.hyeong.", "a..hyeong"])
             elif q < 0.88: name = "f%d.txt" % k
             elif q < 0.92: name = "f%d" % k
             elif q < 0.95: name = "dir.hyeong"
@@ -72,7 +80,7 @@ def main(tier, seed):
         # model predictions where std's verdicts are known
         ops = []; idx = []
         for i, (mode, lvl, path, name, content, stdin) in enumerate(meta):
-            ext_ok = name.endswith(".hyeong")
+            ext_ok = ext_is_hyeong(name)
             readable = ext_ok and name != "dir.hyeong" and not name.startswith("missing")
             try: src = content.decode("utf-8") if readable else None
             except UnicodeDecodeError: src = None
@@ -91,7 +99,7 @@ def main(tier, seed):
             rep.count("cli-runs")
             stats["status"][str(rc)] = stats["status"].get(str(rc), 0) + 1
             if mode == "check": stats["kinds"]["check"] += 1
-            if not name.endswith(".hyeong"): stats["kinds"]["bad_extension"] += 1
+            if not ext_is_hyeong(name): stats["kinds"]["bad_extension"] += 1
             if rc == "timeout":
                 stats["timeouts"] += 1; continue
             key = "cli %s O%d %s %s %s" % (mode, lvl, name.split(".")[-1], content.hex()[:200], stdin.hex()[:100])
